@@ -172,6 +172,11 @@ def run_sequence(ctx, real, nfft, vec, seq, sampling=2.0, p=None):
             p.sides = s
             got = np.array(p.psd, dtype=float)
             ctx.check(p.sides == s, "sides attribute is %r after assigning %r" % (p.sides, s))
+            fdef = np.asarray(p.frequencies(), dtype=float)
+            fexp = np.asarray(p.frequencies(s), dtype=float)
+            ctx.check(fdef.shape == fexp.shape and np.array_equal(fdef, fexp) and len(fdef) == len(got),
+                      "frequencies() without argument does not describe the current format %r: %d entries starting at %r, psd has %d values"
+                      % (s, len(fdef), fdef[:2].tolist(), len(got)), sig={"clause": "frequencies-no-argument", "dst": s})
             if s != before_sides:
                 changed += 1
         else:
